@@ -77,3 +77,25 @@ Definition store_model (c : store_case) : list (bool * N) * list (bytes * N) * l
 
 Definition check_store (c : store_case) : bool :=
   let '(_, t, fin, qs) := c in beq (store_model c) (t, fin, qs).
+
+(** * future: ((style, net, seed, id), oracle, [(commitment number, suggested secret, answer of the
+      CheckFutureSecret route)]); the model derives the channel's commitment seed from (seed, id)
+      and answers [suggested = secret_at seed n] *)
+Definition future_case : Type := (style * N * bytes * bytes) * oracle * list (N * bytes * bool).
+
+Definition x_check_future (cseed : bytes) (n : N) (s : bytes) : bool := bytes_eqb s (secret_at cseed n).
+
+Lemma check_future_secret_is_x k n s :
+  check_future_secret sha256 k n s = x_check_future (k_cseed k) (N.of_nat n) s.
+Proof. reflexivity. Qed.
+
+Definition future_model (c : future_case) : option (list (N * bytes * bool)) :=
+  let '((st, net, seed, id), o, qs) := c in
+  match x_keys_of o st net seed id with
+  | Some k => Some (map (fun q : N * bytes * bool =>
+                           (fst (fst q), snd (fst q), x_check_future (k_cseed k) (fst (fst q)) (snd (fst q)))) qs)
+  | None => None
+  end.
+
+Definition check_future (c : future_case) : bool :=
+  let '(_, _, qs) := c in beq (future_model c) (Some qs).
